@@ -263,6 +263,11 @@ STAGE_OPTIONS = {
 }
 
 
+def ast_unparse(node):
+    import ast as _a
+    return _a.unparse(node)
+
+
 def stream_open_rule(ctx, rep, cl):
     """Text goes in and out unchanged apart from the replacements: the streams handed to anonymize_io are opened with a plain mode ('r' / 'w'),
     without error substitution (errors=), without newline translation overrides (newline=), and with the same encoding on both sides
@@ -659,6 +664,34 @@ def c16(ctx, rep):
     from .ipmodel import IpModel
     _private_merge(ctx, IpModel(ctx), rep, "C16")
     stream_open_rule(ctx, rep, "C16")
+    # parent directories: created exactly when the output path has a directory part
+    if f_mk is not None:
+        rep.analysed(f_mk)
+        fpar = ("param", f_mk.mparams[0])
+        dterm = ("call", ("attr", ("attr", ("global", f_mk.module.name, "os"), "path"), "dirname"), (fpar,), ())
+
+        def _nonempty(t):
+            """Truth value the condition gives to 'the directory part is non-empty' (None: not such a test)."""
+            ln_ = ("call", ("builtin", "len"), (dterm,), ())
+            if t == dterm:
+                return True
+            if t == ("compare", (">",), (ln_, ("const", 0))) or t == ("compare", (">=",), (ln_, ("const", 1))) or t == ("compare", ("!=",), (dterm, ("const", ""))) or t == ("compare", ("!=",), (ln_, ("const", 0))):
+                return True
+            if t == ("compare", ("==",), (ln_, ("const", 0))) or t == ("compare", ("==",), (dterm, ("const", ""))) or t == ("compare", ("<",), (ln_, ("const", 1))) or (t[0] == "unop" and t[1] == "not" and t[2] == dterm):
+                return False
+            return None
+        n_mk = 0
+        for path in A.paths(f_mk).paths:
+            if not path.feasible():
+                continue
+            made = any(M.callee_name(e.a) == "makedirs" for e, ls in path.calls()) or any(isinstance(t, tuple) and t[0] == "except" and pol for t, pol, _ in path.conds)  # attempted (and refused)
+            verdicts = [(_nonempty(t) == pol) for t, pol, _ in path.conds if _nonempty(t) is not None]
+            okg = bool(verdicts) and all(v == made for v in verdicts)
+            n_mk += made
+            if made or path.kind != "raise":
+                rep.ob("C16.mkdirs-guard", "_mkdirs[%s]" % ("creates" if made else "skips"), okg, "os.makedirs is %s under %s; expected: called exactly when dirname(path) is non-empty (a bare file name has nothing to create, a one-letter directory has)" % ("called" if made else "not called", path.describe()[:100]), W(f_mk),
+                       key="C16.mkdirs-guard|%s" % ("creates" if made else "skips"))
+        rep.ob("C16.mkdirs-called", "_mkdirs", n_mk >= 1, "paths of _mkdirs that create the directory: %d" % n_mk, W(f_mk), nontrivial=False)
     rep.ob("C16.entry-points-agree", "open() arguments", len(sig) == 2 and len(set(sig.values())) == 1, "open() modes/options used by the entry points: %s; they must be identical (encoding, newline handling)" % sig, W(f_file), key="C16.entry-points-agree|open-arguments")
     if sig:
         rep.ob("C16.open-modes", "open() arguments", all(v[0][0] == "r" and v[1][0] == "w" for v in sig.values()), "input opened 'r', output opened 'w': %s" % sig, W(f_file))
@@ -870,7 +903,9 @@ def c19(ctx, rep):
     # 4. required / long spellings / config file
     for name in ("--input", "--output"):
         o = opts.get(name)
-        rep.ob("C19.required", name, o is not None and o["required"] == ("ok", True), "%s required=%s" % (name, o["required"] if o else None), o["where"] if o else "", key="C19.required|%s" % name)
+        guarded = bad.get("missing-%s (absent or empty)" % name[2:], 1) == 0
+        rep.ob("C19.required", name, o is not None and (o["required"] == ("ok", True) or guarded), "%s required=%s, guard in main excludes an absent/empty value: %s (either rejects a missing %s before anything is written)" % (name, o["required"] if o else None, guarded, name[2:]),
+               o["where"] if o else "", key="C19.required|%s" % name)
     cfg = [n for n, o in opts.items() if o["is_config_file"] == ("ok", True)]
     rep.ob("C19.config-file-option", "_parse_args", len(cfg) == 1, "is_config_file options: %s" % cfg, W(f_parse), key="C19.config-file-option|_parse_args")
     for n, o in opts.items():
@@ -932,6 +967,22 @@ def c19(ctx, rep):
             b = bind_args(cs.term, f_fa, 1) or {}
             for prm in f_fa.params[1:]:
                 rep.ob("C19.binding", "anonymize_files:%s" % prm, b.get(prm) == ("param", prm), "FileAnonymizer(%s=%s); expected the parameter of the same role" % (prm, show(b.get(prm))), cs.where, key="C19.binding|anonymize_files:%s" % prm)
+    # the console script calls main() without arguments: its default is the command line without the program name
+    dflt = f_main.defaults.get(f_main.params[0]) if f_main.params else None
+    ok_argv = False
+    if dflt is not None:
+        import ast as _a
+        txt = _a.unparse(dflt).replace(" ", "")
+        ok_argv = txt == "sys.argv[1:]"
+        if isinstance(dflt, _a.Constant) and dflt.value is None:
+            # argv=None with `if argv is None: argv = sys.argv[1:]`
+            for path in fp.paths:
+                if path.truth(isnone(("param", f_main.params[0]))) is True:
+                    for e, ls in path.calls():
+                        if f_parse in [t[1] for t in G.resolve_callee(e.a[1], f_main) if t[0] == "func"]:
+                            a0 = e.a[2][0] if e.a[2] else None
+                            ok_argv = a0 == ("sub", ("attr", ("global", f_main.module.name, "sys"), "argv"), ("slice", ("const", 1), None, None))
+    rep.ob("C19.argv-default", "main", ok_argv, "main's default argument list is %s; expected sys.argv[1:] (everything the user typed, nothing else)" % (ast_unparse(dflt) if dflt is not None else None), W(f_main), key="C19.argv-default|main")
     # 8. private addresses
     _private_merge(ctx, IpModel(ctx), rep, "C19")
     from .checks_ip import option_spec_rule
